@@ -17,6 +17,9 @@ func runC20(p *Program, r *Report) {
 	shape := NewReport("C20", r.Tier, r.Seed)
 	runC20Shape(p, shape)
 	if !reportFails(shape) && os.Getenv("C20_FORCE_LANG") == "" {
+		lang := NewReport("C20", r.Tier, r.Seed)
+		c20ByLanguage(p, lang)
+		crossCheck(shape, lang)
 		mergeReport(r, shape)
 		return
 	}
